@@ -408,13 +408,28 @@ where
                     "Unexpected end of file.",
                 ));
             }
-            if !path_str.starts_with("    ") || path_str.trim().is_empty() {
-                return Err(Error::new(
-                    ErrorKind::InvalidData,
-                    format!("Path expected: {path_str}"),
-                ));
-            }
-            let path = Path::from_escaped_string(path_str.trim()).map_err(|e| {
+            // Every path line written by fclones ends with a line terminator.
+            // A line without one means the report was cut off in the middle of the path.
+            let escaped_path = match path_str.strip_suffix('\n') {
+                Some(line) => line.strip_suffix('\r').unwrap_or(line),
+                None => {
+                    return Err(Error::new(
+                        ErrorKind::UnexpectedEof,
+                        "Unexpected end of file.",
+                    ))
+                }
+            };
+            // Strip only the indent: whitespace that belongs to the file name must be preserved.
+            let escaped_path = match escaped_path.strip_prefix("    ") {
+                Some(p) if !p.is_empty() => p,
+                _ => {
+                    return Err(Error::new(
+                        ErrorKind::InvalidData,
+                        format!("Path expected: {path_str}"),
+                    ))
+                }
+            };
+            let path = Path::from_escaped_string(escaped_path).map_err(|e| {
                 Error::new(
                     ErrorKind::InvalidData,
                     format!("Invalid path {path_str}: {e}"),
